@@ -19,7 +19,7 @@ Lemma replay_step_reachable c nofire slack s te : reach c (r_b s) -> reach c (r_
 Proof.
   intros K. destruct te as [at_ e]. unfold replay_step.
   pose proof (reach_tick c at_ _ K) as K1. set (tb := tick_to c at_ (r_b s)) in *.
-  destruct e as [id o ok|id ok|p|id o p ok|id o| |]; cbv zeta.
+  destruct e as [id o ok|id ok|p|id o p ok|id o|p|id o| | |]; cbv zeta.
   - cbn [r_b]. now apply reach_step.
   - destruct (pc (core tb)), (blocked (core tb)), (queue (core tb)) as [|[i o] q]; cbn [r_b]; try exact K1. now apply reach_step.
   - destruct (blocked (core tb)); cbn [r_b]; [exact K1|]. destruct (batch_commit (r_l s) p) as [l' hs].
@@ -30,6 +30,10 @@ Proof.
     + cbn [r_b]. now apply reach_step.
   - destruct (direct_op (r_l s) o p) as [[l' hs] okm]. cbn [r_b]. exact K1.
   - cbn [r_b]. now apply reach_step.
+  - destruct (blocked (core tb)); cbn [r_b]; [exact K1|]. destruct (batch_commit (r_l s) p) as [l' hs].
+    destruct (pc (core tb)); [destruct (queue (core tb))|]; cbn [r_b]; try exact K1; now apply reach_step.
+  - cbn [r_b]. now apply reach_step.
+  - cbn [r_b]. exists []. reflexivity.
   - cbn [r_b]. exact K1.
   - cbn [r_b]. exact K1.
 Qed.
@@ -48,9 +52,9 @@ Proof. intros R. destruct (replay_reachable c nofire slack t) as [tes ->]. now a
 
 (* hence the replayed state of a case checked against the repaired code is never blocked: a TStuck event in an observed
    trace can never be explained by the model *)
-Lemma replay_never_blocked qcap maxsize s28 age nofire slack t :
-  blocked (core (r_b (replay (mk_tcfg (mk_bcfg qcap maxsize true s28) age false) nofire slack t))) = false.
+Lemma replay_never_blocked qcap maxsize s28 s35 age nofire slack t :
+  blocked (core (r_b (replay (mk_tcfg (mk_bcfg qcap maxsize true s28 s35) age false) nofire slack t))) = false.
 Proof.
-  destruct (replay_reachable_untimed (mk_tcfg (mk_bcfg qcap maxsize true s28) age false) nofire slack t eq_refl) as [es ->].
+  destruct (replay_reachable_untimed (mk_tcfg (mk_bcfg qcap maxsize true s28 s35) age false) nofire slack t eq_refl) as [es ->].
   now apply never_blocks.
 Qed.
